@@ -20,8 +20,8 @@ CONSTANTS Families, MaxDepth, Off
 VARIABLES cfg, nfits, probed, act, obs
 vars == <<cfg, nfits, probed, act, obs>>
 
-NPar == [expoffset |-> 3, exponential |-> 2, powerlaw |-> 2, peak |-> 3, sinusoid |-> 3, logistic |-> 3, histpeak |-> 2, unbinned |-> 2]
-Kind == [expoffset |-> "xy", exponential |-> "xy", powerlaw |-> "xy", peak |-> "xy", sinusoid |-> "xy", logistic |-> "xy", histpeak |-> "hist", unbinned |-> "unbinned"]
+NPar == [growth |-> 2, expoffset |-> 3, exponential |-> 2, powerlaw |-> 2, peak |-> 3, sinusoid |-> 3, logistic |-> 3, histpeak |-> 2, unbinned |-> 2]
+Kind == [growth |-> "xy", expoffset |-> "xy", exponential |-> "xy", powerlaw |-> "xy", peak |-> "xy", sinusoid |-> "xy", logistic |-> "xy", histpeak |-> "hist", unbinned |-> "unbinned"]
 
 Configs ==
   {c \in [family : Families, errors : {"y", "xy", "xmodel", "ymodelrel", "xymodelrel", "none"}, dea : {"nonlinear", "iterative"},
